@@ -12,3 +12,6 @@ def run(chk):
     tree_rules.add_children_rules(chk, "C11")
     backtest_rules.run_loop(chk, "C11")
     tree_rules.set_order_rules(chk, "C11")
+    tree_rules.set_typed_attribute_order(chk, "C11")
+    tree_rules.input_data_never_mutated(chk, "C11")
+    tree_rules.no_shared_class_state(chk, "C11")
